@@ -138,7 +138,7 @@ def render(model, output: str, inputs: dict[str, str]) -> str:
             if attr(n, "fmod", 0) != 0:
                 raise Unsupported("Mod fmod=1")
             return "(Mod0 " + " ".join(args()) + ")"
-        if op in ("Add", "Sub", "Mul", "Equal", "Less", "And", "Or", "Xor"):
+        if op in ("Add", "Sub", "Mul", "Equal", "Less", "And", "Or", "Xor", "Greater", "LessOrEqual", "GreaterOrEqual"):
             return f"({op} " + " ".join(args()) + ")"
         if op in ("ReduceSum", "ReduceProd", "ReduceMin", "ReduceMax"):
             if len(n.input) != 2:
@@ -830,7 +830,7 @@ def _prog_worker(job):
     from . import progs
     seed, = job
     rng = random.Random(f"tgraph-prog/{seed}")
-    prog = progs.generate(rng, seed=seed, families=["index", "layout", "layout", "reduce", "index", "shortcut"],
+    prog = progs.generate(rng, seed=seed, families=["index", "layout", "layout", "reduce", "index", "shortcut", "where", "logical", "cmp", "binary", "inplace", "creation"],
                           dtypes=["int64", "int64", "int32", "bool", "uint8", "int16"], n_steps=(1, 4),
                           sizes={"A": rng.choice([0, 1, 2, 3]), "B": rng.choice([1, 2, 3])})
     if prog is None:
